@@ -30,7 +30,7 @@ CHECKS = {
  "C06": ("S", "exploration", "deterministic simulation: bounded liveness by step budget on instrumented operations",
          "Every match in histories with zero quantities runs under a step budget derived from a model bound on maker visits; a non-returning call becomes a deterministic BudgetExceeded after microseconds instead of a hang, and the post-conditions on remaining/displayed quantity are checked on return.",
          "Budget = 64 x (visit bound + resting orders + 8) + 8 x (tickets issued so far, for the dead tickets a match steps over) instrumented operations, hard-capped; every loop iteration of match_order and OrderQueue::pop performs at least one instrumented operation.", "DESIGN.md §4.3, §8 C06"),
- "C07": ("S", "exploration", "deterministic simulation: before/after frame relations per update + twin run with read-only calls removed",
+ "C07": ("S", "exploration", "deterministic simulation: before/after frame relations per update + twin run with read-only calls removed + blind twin (no read-only call or monitor observation between the mutating calls)",
          "All five update kinds on present/absent ids at equal/other prices in states after fills and replenishments; the returned order, the frame (only that order changes) and the ledger are checked, and purity of reads is decided by running the same history with and without them.",
          "As C01.", "DESIGN.md §8 C07"),
  "C08": ("T", "exploration", "deterministic simulation: controlled scheduler; concurrent phase followed by a draining match under a step budget; bare-queue programs with an exactly-once hand-out ledger",
